@@ -26,6 +26,11 @@ pub const DEPTH_OPS: &[&str] = &[
     "get_by_path_wildcards",
     "path_exists_deep",
     "parse_json_path_deep",
+    "convert_to_comparable",
+    "delete_by_index_deep",
+    "array_insert_deep",
+    "delete_by_keypath_deep",
+    "get_by_keypath_deep",
 ];
 pub const SHAPES: &[&str] = &["arrays", "objects", "alternating"];
 pub const LADDER: &[u64] = &[1, 2, 10, 100, 1_000, 10_000, 100_000, 300_000];
@@ -41,6 +46,11 @@ pub const INDEX_OPS: &[&str] = &[
     "path_last_minus",
     "path_last_plus",
     "path_slice",
+    "path_text_index",
+    "path_text_last_minus",
+    "path_text_last_plus",
+    "path_text_slice",
+    "keypath_text",
 ];
 
 /// rendering with indentation is quadratic in depth; keep the output below ~1 GB
@@ -270,7 +280,74 @@ fn run_depth_op(op: &str, shape: &str, depth: u64) -> String {
             let t = deep_path_text(shape, depth);
             res_name(jp::parse_json_path(&t).map(|p| p.paths.len()))
         }
+        "convert_to_comparable" => {
+            let b = deep_jsonb(shape, depth);
+            let mut out = vec![];
+            jsonb::convert_to_comparable(&b, &mut out);
+            if out.is_empty() { "error:empty".into() } else { "completed".into() }
+        }
+        // the index-taking functions on a deep document: today they read the outer container only
+        "delete_by_index_deep" => {
+            let b = deep_jsonb(shape, depth);
+            let mut out = vec![];
+            res_name(jsonb::delete_by_index(&b, -1, &mut out))
+        }
+        "array_insert_deep" => {
+            let b = deep_jsonb(shape, depth);
+            let mut out = vec![];
+            res_name(jsonb::array_insert(&b, i32::MAX, &b, &mut out))
+        }
+        "delete_by_keypath_deep" => {
+            let b = deep_jsonb(shape, depth);
+            let kp = [if level_is_object(shape, 0) { jsonb::keypath::KeyPath::Name(Cow::Borrowed("a")) } else { jsonb::keypath::KeyPath::Index(0) }];
+            let mut out = vec![];
+            res_name(jsonb::delete_by_keypath(&b, kp.iter(), &mut out))
+        }
+        "get_by_keypath_deep" => {
+            let b = deep_jsonb(shape, depth);
+            let kp: Vec<jsonb::keypath::KeyPath<'static>> = (0..depth.saturating_sub(1))
+                .map(|l| if level_is_object(shape, l) { jsonb::keypath::KeyPath::Name(Cow::Borrowed("a")) } else { jsonb::keypath::KeyPath::Index(0) })
+                .collect();
+            match jsonb::get_by_keypath(&b, kp.iter()) {
+                Some(_) => "completed".into(),
+                None => "error:none".into(),
+            }
+        }
         other => format!("harness:unknown_op:{other}"),
+    }
+}
+
+/// Index cases that go through the text parsers (JSONPath / key path) before the evaluator.
+fn run_index_text_op(op: &str, index: i32, index2: i32, len: usize, text: bool) -> String {
+    let arr = index_doc(len);
+    let mut m = BTreeMap::new();
+    m.insert("k".to_string(), arr.clone());
+    let obj = MVal::Obj(m);
+    let st = mval::TextStyle::default();
+    let enc = |v: &MVal| if text { mval::to_text(v, &st).into_bytes() } else { mval::encode(v) };
+    if op == "keypath_text" {
+        let t = format!("{{k,{index}}}");
+        return match jsonb::keypath::parse_key_paths(t.as_bytes()) {
+            Ok(kp) => match jsonb::get_by_keypath(&enc(&obj), kp.paths.iter()) {
+                Some(_) => "completed".into(),
+                None => "error:none".into(),
+            },
+            Err(e) => format!("error:{}", ops::err_name(&e)),
+        };
+    }
+    let t = match op {
+        "path_text_index" => format!("$[{index}]"),
+        "path_text_last_minus" => format!("$[last - {index}]"),
+        "path_text_last_plus" => format!("$[last + {index}]"),
+        _ => format!("$[{index} to last - {index2}]"),
+    };
+    match jp::parse_json_path(t.as_bytes()) {
+        Ok(p) => {
+            let mut data = vec![];
+            let mut offs = vec![];
+            res_name(jsonb::get_by_path(&enc(&arr), p, &mut data, &mut offs))
+        }
+        Err(e) => format!("error:{}", ops::err_name(&e)),
     }
 }
 
@@ -354,6 +431,7 @@ pub fn child_main(arg: &str) -> i32 {
     let h = std::thread::Builder::new().name("case".into()).stack_size(stack as usize).spawn(move || {
         guard(|| match &case {
             Case::Depth { op, shape, depth, .. } => run_depth_op(op, shape, *depth),
+            Case::Index { op, index, index2, len, text, .. } if op.contains("text") => run_index_text_op(op, *index, *index2, *len, *text),
             Case::Index { op, index, index2, len, text, .. } => run_index_op(op, *index, *index2, *len, *text),
         })
     });
@@ -498,7 +576,7 @@ impl Limits {
                 for index in idxs {
                     for text in [false, true] {
                         for build in BUILDS {
-                            let index2s: Vec<i32> = if *op == "path_slice" { vec![i32::MIN, 0, i32::MAX] } else { vec![0] };
+                            let index2s: Vec<i32> = if op.ends_with("slice") { vec![i32::MIN, 0, i32::MAX] } else { vec![0] };
                             for index2 in index2s {
                                 v.push(Case::Index { op: op.to_string(), index, index2, len, text, build: build.to_string() });
                             }
